@@ -219,9 +219,7 @@ def run(ctx):
     refused = set()
     for n in H.walk(assign_arm["body"]):
         if H.kind(n) == "If":
-            for x in H.walk(n["cond"]):
-                if H.kind(x) == "Lit" and x["lk"] == "str":
-                    refused.add(x["v"])
+            refused |= set(H.str_lits(n["cond"], core))
     G = Grammar(ctx.grammar)
     reserved = set(G.literals(G.expr("reserved_word")))
     for nm in sorted(special | {"inputs"}):
